@@ -12,9 +12,10 @@ JDir(r, j) ==
     /\ MaxIntersectionOK(v, o, d, c.max)
     /\ FarthestOK(v, o, d, c.far)
     \* normal line of a surface point: same crossings, parameters measured in units of length (|d| integral only)
-    \* (the direction is normalised, hence inexact: a line through a vertex may or may not touch it -> free)
-    /\ (\E k \in 1..Len(v) : Cross2(VSub(v[k], o), d) = 0) \/ Len(c.sints) = NumCross(v, o, d)
-    /\ (nd > 0 /\ ~(\E k \in 1..Len(v) : Cross2(VSub(v[k], o), d) = 0)) => \A a \in 1..Len(c.sints) : Len(c.sints) = Len(c.ints) /\ AbsV(c.sints[a] - nd * c.ints[a][1]) <= 2 * nd + 2
+    \* (the direction is normalised, hence inexact: the count is demanded only where every vertex on the
+    \*  line is a proper crossing - touches, open ends and edges along the line are free)
+    /\ RobustCount(v, o, d) => Len(c.sints) = NumCross(v, o, d)
+    /\ (nd > 0 /\ RobustCount(v, o, d)) => \A a \in 1..Len(c.sints) : Len(c.sints) = Len(c.ints) /\ AbsV(c.sints[a] - nd * c.ints[a][1]) <= 2 * nd + 2
 
 JCast(r) ==
     /\ Clause(i, "C06.finite", r.out.finite)
